@@ -349,7 +349,14 @@ func (fr *Frame) evalValue(n *vnode, v ssa.Value) *Val {
 		n.heap[comp] = x.nameBig(Store(m, arr, zero), comp)
 		return &Val{T: MkSlice(arr, IntLit(0), ln, cp), Ty: i.Type()}
 	case *ssa.MakeMap:
-		return &Val{T: x.newRef("map"), Ty: i.Type()}
+		m := x.newRef("map")
+		if _, pc, ks, _, ok := x.mapComps(i.Type()); ok {
+			// a new map has no entries
+			pres := x.comp(n.heap, pc, SArray(SInt, SArray(ks, SBool)))
+			empty := &Term{Op: "(as const " + SArray(ks, SBool).String() + ")", Args: []*Term{False}, S: SArray(ks, SBool)}
+			n.heap[pc] = Store(pres, m, empty)
+		}
+		return &Val{T: m, Ty: i.Type()}
 	case *ssa.MakeChan:
 		bail("channels in %s", fr.fn)
 	case *ssa.Lookup:
